@@ -14,6 +14,7 @@ CONSTANTS
   PreRO <- NoPreRO
   FrontKind = "sharded"
   KeyShards <- MCKeyShards
+  FaultBudget = 0
 VIEW View
 INVARIANTS InvDirValid InvDebris InvHandle InvNoErr InvOneCopy
 PROPERTIES StepImmutable StepReadOnlyFirst StepRemoval StepGetLin
